@@ -89,3 +89,33 @@ class convert_name:
 
     def ensures_function(name, naming_convention, is_class_name, result):
         return result == CONV(name, naming_convention, is_class_name)
+
+
+def _conv_cases(seed, tier):
+    """All identifiers over {a, B, 1, _} up to length 5 (quick) / 7 (thorough), both flags, both conventions, in an
+    interleaved order (the same name is converted as class name and as non-class name in one process)."""
+    import itertools
+    n = 5 if tier == "quick" else 7
+    for ln in range(0, n + 1):
+        for t in itertools.product("aB1_", repeat=ln):
+            name = "".join(t)
+            for conv in (NamingConvention.SAFE_DS, NamingConvention.PYTHON):
+                for is_class in (False, True, False):
+                    yield {"kwargs": {"name": name, "naming_convention": conv, "is_class_name": is_class}}
+    for name in ("my_class_name", "__dunder__", "_private_thing_", "already_CamelCase", "x_1_y", "snake_case_with_many_parts"):
+        for is_class in (True, False):
+            yield {"kwargs": {"name": name, "naming_convention": NamingConvention.SAFE_DS, "is_class_name": is_class}}
+
+
+convert_name.native_cases = staticmethod(_conv_cases)
+
+
+def _kw_cases(seed, tier):
+    import itertools
+    for k in sorted(KW33) + ["Val", "vals", "", "class_", "_class", "`val`", "In", "fun1"]:
+        yield {"kwargs": {"keyword": k}}
+    for t in itertools.product("valn_", repeat=3):
+        yield {"kwargs": {"keyword": "".join(t)}}
+
+
+replace_kw.native_cases = staticmethod(_kw_cases)
